@@ -20,7 +20,7 @@ func (c *ConnTap) ForgeShort(sender Dir, payload []byte) ([]byte, error) {
 	g := len(gens) - 1
 	c.forged[sender]++
 	pn := uint64(c.largest[sender][2]+50) + c.forged[sender] // successive forged packets get successive numbers
-	first := byte(0x40 | 0x03) // fixed bit, 4-byte packet number
+	first := byte(0x40 | 0x03)                               // fixed bit, 4-byte packet number
 	if g%2 == 1 {
 		first |= 0x04
 	}
